@@ -730,7 +730,7 @@ def with_big_stack(fn, limit=120000, stack_mb=1024):
             box["r"] = fn()
         except RecursionError:
             box["r"] = {"run_exc": "RecursionError"}
-        except BaseException as ex:  # noqa: BLE001
+        except Exception as ex:  # noqa: BLE001
             box["r"] = {"run_exc": type(ex).__name__, "run_exc_msg": str(ex)[:200]}
         finally:
             sys.setrecursionlimit(old)
